@@ -2,7 +2,9 @@ pub mod c01;
 pub mod c02;
 pub mod c07;
 pub mod c11;
+pub mod c13;
 pub mod c16;
+pub mod c19;
 
 pub fn lab() {
     use crate::world::*;
@@ -17,5 +19,25 @@ pub fn lab() {
     w.run_for(5000);
     for l in w.trace.render(0, 200) {
         println!("{l}");
+    }
+}
+
+/// Debug helper: find C13 scenarios with many iterations and show why.
+pub fn lab2() {
+    use crate::util;
+    for i in 0..400u64 {
+        let seed = util::mix(1, 0xC13_0000 + i);
+        let made = c13::scenario(seed, None, i % 4 == 0);
+        if made.world.total_iterations > 20000 {
+            println!("scenario {i} iterations {} desc {}", made.world.total_iterations, made.desc);
+            let w = &made.world;
+            for l in w.trace.render(0, 60) {
+                println!("  {}", &l[..l.len().min(200)]);
+            }
+            let snap = w.hosts[0].last_snapshot.clone();
+            println!("snapshot: {:?}", snap.map(|s| (s.timers_len, s.timers_min, s.retransmissions, s.resolvers)));
+            println!("wakeup {:?} now {}", w.hosts[0].ctx.lock().wakeup, w.now());
+            break;
+        }
     }
 }
